@@ -20,7 +20,7 @@ ASSUMPTIONS = [
     "state-dependent cases still get 'junction emptied' and 'total preserved'",
     "the pre-flush state is read from Model(...) before Model.process() (documented two-step use of run_model)",
 ]
-BUDGET = {"quick": 3000, "thorough": 24000}  # thorough = 8x quick: a depth that was run to completion, quiet, at seed 1 (deterministic given the seed)
+BUDGET = {"quick": 3000, "thorough": 12000}  # thorough = 4x quick: a depth that was run to completion, quiet, at seed 1 (deterministic given the seed)
 TIME_CAP = {"quick": 75, "thorough": 1500}
 PROFILE = {"p_programs": 0.3, "p_second_type": 0.15, "p_junction": 1.0, "p_indirect_junction": 0.25, "max_junction_motifs": 3, "p_timed": 0.45, "p_function": 0.35, "max_steps": 20, "extreme": 0.1}
 STATE_NAME = re.compile(r"\b(c\d+|t\d+[abc]|x\d+|xf|j\d+|jg\d+)\b")
